@@ -103,6 +103,23 @@ theorem io_recv_closed (d : Dict) (ev : ReadEv) (evs : List ReadEv) (b b1 : RBuf
   simp only [hv, hs, Gen.cIoRecvClosed_cond, decide_eq_true_eq, ne_eq, not_true_eq_false, if_false]
 theorem aio_recv_closed (n : Nat) : Gen.cAioRecvClosed_cond n = Gen.cIoRecvClosed_cond n := rfl
 
+/-- the numbering of `ErrorKind` the extractor uses for the `recv` dispatch -/
+def ekindNum : EKind → Nat
+  | .insufficientSize => 0 | .badAlign => 1 | .invalidEnumTag => 2 | .invalidData => 3 | .other => 4
+/-- `recv`: exactly the extracted kind means "read more"; every other validation error is returned as `Parse` with nothing read -/
+theorem io_recv_dispatch (d : Dict) (evs : List ReadEv) (b : RBuf) (rest : Bytes) (e : Err) (hv : d.validate b.slice = .err e) :
+    (Gen.cIoRecvRetry_cond (ekindNum e.kind) = false → recv d evs b rest = (.parse e, b, rest, evs)) ∧
+    (Gen.cIoRecvRetry_cond (ekindNum e.kind) = true → e.kind = .insufficientSize) := by
+  constructor
+  · intro h
+    have hk : e.kind ≠ .insufficientSize := by
+      intro hk; rw [hk] at h; simp [Gen.cIoRecvRetry_cond, ekindNum] at h
+    unfold recv
+    simp [hv, hk]
+  · intro h
+    cases hk : e.kind <;> rw [hk] at h <;> simp [Gen.cIoRecvRetry_cond, ekindNum] at h ⊢
+theorem aio_recv_dispatch (k : Nat) : Gen.cAioRecvRetry_cond k = Gen.cIoRecvRetry_cond k := rfl
+
 /-- the buffers the constructors allocate hold twice the largest message — the capacity hypothesis of `C07_receiver_delivers`
 (`2 * m.length ≤ cap`) for every message of at most `max_msg_len` bytes — and are never empty for a type with `MIN_SIZE > 0` -/
 theorem io_capacities (maxlen tmin : Nat) :
@@ -131,7 +148,7 @@ theorem io_advance (b : RBuf) (c : Nat) (rest : Bytes) (hw : b.start + b.occ.len
     Nat.le_trans (Nat.min_le_left _ _) (Nat.min_le_right _ _)
   omega
 
-theorem io_untranslatable_none : (Gen.cIoSkipAssert_untranslatable || Gen.cIoAdvanceAssert_untranslatable || Gen.ioPrecedingLen_untranslatable || Gen.ioOccupiedLen_untranslatable || Gen.ioVacantLen_untranslatable ||
+theorem io_untranslatable_none : (Gen.cIoRecvRetry_untranslatable || Gen.cAioRecvRetry_untranslatable || Gen.cIoSkipAssert_untranslatable || Gen.cIoAdvanceAssert_untranslatable || Gen.ioPrecedingLen_untranslatable || Gen.ioOccupiedLen_untranslatable || Gen.ioVacantLen_untranslatable ||
     Gen.ioContiguousEnd_untranslatable || Gen.ioSendCap_untranslatable || Gen.ioRecvCap_untranslatable || Gen.aioSendCap_untranslatable ||
     Gen.aioRecvCap_untranslatable || Gen.cIoWriteLoop_untranslatable || Gen.cIoWriteZero_untranslatable || Gen.cIoPoisonZero_untranslatable ||
     Gen.cIoPoisonErr_untranslatable || Gen.cIoReadFull_untranslatable || Gen.cIoReadCompact_untranslatable || Gen.cIoRecvClosed_untranslatable ||
